@@ -21,6 +21,7 @@ import (
 	"fmt"
 	"math/rand"
 	"net"
+	"os"
 	"runtime"
 	"sync"
 	"sync/atomic"
@@ -29,6 +30,14 @@ import (
 
 	"verif.local/kit"
 )
+
+// c17Watchdog is the no-progress watchdog (its firing is inconclusive, never a verdict).
+var c17Watchdog = func() time.Duration {
+	if v, err := time.ParseDuration(os.Getenv("C17_WATCHDOG")); err == nil && v > 0 {
+		return v
+	}
+	return 120 * time.Second
+}()
 
 type c17Step struct {
 	Cap  int    `json:"cap"`
@@ -240,8 +249,8 @@ func (m *c17Mon) waitUntil(what string, cond func() bool) bool {
 		}
 		if e := atomic.LoadInt64(&m.events); e != last {
 			last, lastT = e, time.Now()
-		} else if time.Since(lastT) > 120*time.Second {
-			m.doAbort("watchdog: no progress for 120s while waiting for " + what)
+		} else if time.Since(lastT) > c17Watchdog {
+			m.doAbort("watchdog: no progress for " + c17Watchdog.String() + " while waiting for " + what)
 			return false
 		}
 	}
@@ -249,6 +258,9 @@ func (m *c17Mon) waitUntil(what string, cond func() bool) bool {
 
 func (m *c17Mon) doAbort(why string) {
 	if atomic.CompareAndSwapInt32(&m.aborted, 0, 1) {
+		m.mu.Lock()
+		why += fmt.Sprintf(" [kind=%s open=%d cap=%d outstanding=%d accepts=%d]", m.script.Kind, m.gauge, m.bound, m.pending, m.accepts)
+		m.mu.Unlock()
 		m.r.Inconclusive(why)
 		close(m.abort)
 	}
@@ -662,14 +674,21 @@ func c17Probe(r *kit.Run, m *c17Mon, in *c17Inner, s *c17Script) {
 		return
 	}
 	// close one accepted connection: one held-back dial must get through
-	for _, p := range ps {
-		if c17Closed(p.d.accepted) {
-			atomic.StoreInt32(&p.d.clientClosed, 1)
-			p.cli.Close()
-			p.cli = nil
-			break
+	var first *pc
+	if !m.waitUntil("final probe: accepted dial notified", func() bool {
+		for _, p := range ps {
+			if c17Closed(p.d.accepted) {
+				first = p
+				return true
+			}
 		}
+		return false
+	}) {
+		return
 	}
+	atomic.StoreInt32(&first.d.clientClosed, 1)
+	first.cli.Close()
+	first.cli = nil
 	if !m.waitUntil("final probe: released slot reused", func() bool {
 		m.mu.Lock()
 		defer m.mu.Unlock()
